@@ -1,0 +1,20 @@
+//go:build verif
+
+package qos
+
+import "net"
+
+// Verification hook for property C16 (session teardown). Accessor only; compiled in only with
+// -tags verif.
+
+// VerifC16Tracked returns the addresses the manager tracks a policy for (the keys of
+// m.subscribers, as the addresses recorded with them).
+func (m *Manager) VerifC16Tracked() []net.IP {
+	m.subscribersMu.RLock()
+	defer m.subscribersMu.RUnlock()
+	out := make([]net.IP, 0, len(m.subscribers))
+	for _, q := range m.subscribers {
+		out = append(out, append(net.IP(nil), q.IP.To4()...))
+	}
+	return out
+}
